@@ -24,11 +24,13 @@ import (
 	"math/rand"
 	"os"
 	"os/exec"
+	"os/signal"
 	"path/filepath"
 	"regexp"
 	"sort"
 	"strconv"
 	"strings"
+	"syscall"
 	"testing"
 	"testing/synctest"
 	"time"
@@ -55,10 +57,10 @@ var (
 	workDir = flag.String("work", "", "scratch directory (under /verif/out/C11)")
 )
 
-const (
-	retention = 120 * time.Hour
-	unitsPer  = 4 // U of spec/mc/MC_Snapshot.tla: boundary, +1 byte, mid-record, next boundary-1
-)
+const unitsPer = 4 // U of spec/mc/MC_Snapshot.tla: boundary, +1 byte, mid-record, next boundary-1
+
+// retention of the stores the harness opens (TestReplay sets it to the model's Retention).
+var retention = 120 * time.Hour
 
 func ts(d time.Duration) *timestamppb.Timestamp { return timestamppb.New(hx.Epoch.Add(d)) }
 
@@ -89,6 +91,21 @@ type handle interface {
 	maintenance(interval time.Duration, snapf string, stopc <-chan struct{})
 	probe(r rec) string // "" if the record still has its effect (mutes / is returned by Query)
 	mutate(i int) error // one API write (used between snapshots)
+	maint() (passes, errs float64) // maintenance passes run / failed (the store's own metrics)
+}
+
+// counter reads a counter of a store's metrics registry.
+func counter(reg *prometheus.Registry, name string) float64 {
+	mfs, err := reg.Gather()
+	if err != nil {
+		return -1
+	}
+	for _, mf := range mfs {
+		if mf.GetName() == name && len(mf.Metric) > 0 && mf.Metric[0].Counter != nil {
+			return mf.Metric[0].Counter.GetValue()
+		}
+	}
+	return -1
 }
 
 type kind struct {
@@ -282,20 +299,26 @@ func craftSilence(j int) rec {
 type silH struct {
 	s   *silence.Silences
 	mut *silence.Silencer
+	reg *prometheus.Registry
 }
 
 func openSil(file string, rd io.Reader) (handle, error) {
+	reg := prometheus.NewRegistry()
 	s, err := silence.New(silence.Options{
 		SnapshotFile:   file,
 		SnapshotReader: rd,
 		Retention:      retention,
-		Metrics:        prometheus.NewRegistry(),
+		Metrics:        reg,
 		EventRecorder:  eventrecorder.NopRecorder(),
 	})
 	if err != nil {
 		return nil, err
 	}
-	return &silH{s: s, mut: silence.NewSilencer(s, promslog.NewNopLogger(), eventrecorder.NopRecorder())}, nil
+	return &silH{s: s, mut: silence.NewSilencer(s, promslog.NewNopLogger(), eventrecorder.NopRecorder()), reg: reg}, nil
+}
+
+func (h *silH) maint() (float64, float64) {
+	return counter(h.reg, "alertmanager_silences_maintenance_total"), counter(h.reg, "alertmanager_silences_maintenance_errors_total")
 }
 
 func (h *silH) proj() (map[string]string, []string) {
@@ -462,14 +485,22 @@ func craftEntry(j int) rec {
 	return rec{key: logKey(e), msg: &npb.MeshEntry{Entry: e, ExpiresAt: exp}, want: projEntry(e, exp), shape: shape}
 }
 
-type logH struct{ l *nflog.Log }
+type logH struct {
+	l   *nflog.Log
+	reg *prometheus.Registry
+}
 
 func openLog(file string, rd io.Reader) (handle, error) {
-	l, err := nflog.New(nflog.Options{SnapshotFile: file, SnapshotReader: rd, Retention: retention, Metrics: prometheus.NewRegistry()})
+	reg := prometheus.NewRegistry()
+	l, err := nflog.New(nflog.Options{SnapshotFile: file, SnapshotReader: rd, Retention: retention, Metrics: reg})
 	if err != nil {
 		return nil, err
 	}
-	return &logH{l: l}, nil
+	return &logH{l: l, reg: reg}, nil
+}
+
+func (h *logH) maint() (float64, float64) {
+	return counter(h.reg, "alertmanager_nflog_maintenance_total"), counter(h.reg, "alertmanager_nflog_maintenance_errors_total")
 }
 
 func (h *logH) proj() (map[string]string, []string) {
@@ -612,6 +643,11 @@ func genItems(k *kind, g, n int) []rec {
 //	seq   : tick (snapshot 1), API writes, tick (snapshot 2), shutdown snapshot 3 with GC
 //	huge  : shutdown snapshot of 60000 records (thorough)
 //	seq6  : five ticks with API writes between them and a GC, shutdown snapshot (thorough)
+//	wfail_tick : tick (snapshot 1 completes), 60 API writes, then the file-size limit of the
+//	        process is set to 4096 bytes (SIGXFSZ ignored) so that the write of the next
+//	        snapshot stores a prefix and fails with EFBIG; tick (snapshot 2 fails); the
+//	        process is killed (SIGKILL)
+//	wfail_shut : the same, the failing snapshot is the shutdown snapshot; normal exit
 func TestHelperSnapshot(t *testing.T) {
 	mode := os.Getenv("C11_HELPER")
 	if mode == "" {
@@ -633,6 +669,8 @@ func TestHelperSnapshot(t *testing.T) {
 		case "seq", "seq6":
 			items = genItems(k, 1, 3)
 			items = append(items, shortLived(k))
+		case "wfail_tick", "wfail_shut":
+			items = genItems(k, 1, 3)
 		}
 		h, err := k.open("", bytes.NewReader(encode(items)))
 		if err != nil {
@@ -650,6 +688,39 @@ func TestHelperSnapshot(t *testing.T) {
 			}
 			time.Sleep(60 * time.Second) // tick at 2m: snapshot 2; the short-lived record expires at 2m15s
 			synctest.Wait()
+		}
+		if strings.HasPrefix(scn, "wfail") {
+			time.Sleep(90 * time.Second) // tick at 1m: snapshot 1 completes
+			synctest.Wait()
+			prev, probs := h.proj() // the state captured by the last completed snapshot
+			for i := 0; i < 60; i++ {
+				if err := h.mutate(i); err != nil {
+					t.Fatal(err)
+				}
+			}
+			all, _ := h.proj()
+			restore, err := limitFileSize(4096)
+			if err != nil {
+				t.Fatal(err)
+			}
+			if scn == "wfail_tick" {
+				time.Sleep(60 * time.Second) // tick at 2m: the write of snapshot 2 fails
+				synctest.Wait()
+			} else {
+				close(stopc) // the write of the shutdown snapshot fails
+				<-done
+			}
+			restore()
+			passes, errs := h.maint()
+			b, _ := json.Marshal(map[string]any{"state": prev, "problems": probs, "passes": passes, "failed_passes": errs, "records_in_store": len(all)})
+			if err := os.WriteFile(filepath.Join(dir, "child_state.json"), b, 0o644); err != nil {
+				t.Fatal(err)
+			}
+			if scn == "wfail_tick" {
+				syscall.Kill(os.Getpid(), syscall.SIGKILL) // the process is killed: no shutdown snapshot
+				select {}
+			}
+			return
 		}
 		if scn == "seq6" { // five ticks, API writes between them, GC of the short-lived record at the third
 			for c := 0; c < 5; c++ {
@@ -670,6 +741,20 @@ func TestHelperSnapshot(t *testing.T) {
 	})
 }
 
+// limitFileSize makes every write beyond n bytes of a file fail with EFBIG (RLIMIT_FSIZE, with
+// SIGXFSZ ignored): the fault "a write stores a prefix and returns an error" on the real code.
+func limitFileSize(n uint64) (restore func(), err error) {
+	signal.Ignore(syscall.SIGXFSZ)
+	var old syscall.Rlimit
+	if err := syscall.Getrlimit(syscall.RLIMIT_FSIZE, &old); err != nil {
+		return nil, err
+	}
+	if err := syscall.Setrlimit(syscall.RLIMIT_FSIZE, &syscall.Rlimit{Cur: n, Max: old.Max}); err != nil {
+		return nil, err
+	}
+	return func() { syscall.Setrlimit(syscall.RLIMIT_FSIZE, &old) }, nil
+}
+
 // shortLived is a record that the GC of the shutdown snapshot removes (expires at 2m15s).
 func shortLived(k *kind) rec {
 	r := k.craft(900)
@@ -685,12 +770,13 @@ func shortLived(k *kind) rec {
 // ---------------------------------------------------------------- (a) recording and abstraction
 
 type absOp struct {
-	Op    string `json:"op"` // create write fsync close rename unlink dirsync
+	Op    string `json:"op"` // create write writefail fsync close rename unlink dirsync
 	A     string `json:"a"`
 	B     string `json:"b"`
 	N     int    `json:"n"` // write: units of the specification
 	G     int    `json:"g"`
 	Bytes int64  `json:"bytes,omitempty"`
+	Req   int64  `json:"req,omitempty"` // write: number of bytes the caller asked to write
 	Flags string `json:"flags,omitempty"`
 }
 
@@ -702,6 +788,8 @@ type recording struct {
 	Raw         []string `json:"raw"`
 	Ops         []absOp  `json:"ops"`
 	Recs        []int    `json:"recs"` // records per generation in the model (index 0 = snapshot on disk before)
+	Failed      []int    `json:"failed"` // generations whose write failed
+	FaultWanted bool     `json:"fault_wanted"`
 	ShapeErrors []string `json:"shape_errors"`
 	Writes      []int    `json:"writes_per_snapshot"`
 	ByteCounts  []int64  `json:"bytes_per_snapshot"`
@@ -753,13 +841,18 @@ func parseStrace(path, dir, snap string) (raw []string, ops []absOp, err error) 
 			continue
 		}
 		call, args, ret := m[2], m[3], m[4]
-		if strings.HasPrefix(ret, "-") {
-			continue
-		}
 		strs := reQuoted.FindAllStringSubmatch(args, -1)
 		fd := ""
 		if x := reFd.FindStringSubmatch(args); x != nil {
 			fd = x[1]
+		}
+		if strings.HasPrefix(ret, "-") {
+			// a failing write on a snapshot file is the fault WriteFail of the specification
+			if p, ok := fds[fd]; ok && isSnap(p) && (call == "write" || call == "pwrite64" || call == "writev") {
+				raw = append(raw, line)
+				ops = append(ops, absOp{Op: "writefail", A: p, Req: lastInt(args), Flags: strings.TrimSpace(m[5])})
+			}
+			continue
 		}
 		switch call {
 		case "openat", "open", "creat":
@@ -790,7 +883,7 @@ func parseStrace(path, dir, snap string) (raw []string, ops []absOp, err error) 
 			if p, ok := fds[fd]; ok && isSnap(p) {
 				raw = append(raw, line)
 				n, _ := strconv.ParseInt(ret, 10, 64)
-				ops = append(ops, absOp{Op: "write", A: p, Bytes: n})
+				ops = append(ops, absOp{Op: "write", A: p, Bytes: n, Req: lastInt(args)})
 			}
 		case "fsync", "fdatasync":
 			if p, ok := fds[fd]; ok {
@@ -827,10 +920,19 @@ func parseStrace(path, dir, snap string) (raw []string, ops []absOp, err error) 
 	return raw, ops, sc.Err()
 }
 
+// lastInt is the last argument of a call (the byte count of write).
+func lastInt(args string) int64 {
+	i := strings.LastIndex(args, ",")
+	n, _ := strconv.ParseInt(strings.TrimSpace(args[i+1:]), 10, 64)
+	return n
+}
+
 // abstract maps real paths to the names of the specification (final, tmp1, tmp2, ...; a
 // handle keeps the name its file had when it was opened), numbers the snapshots
 // (generation = number of create calls so far) and scales write sizes to units.
-func abstract(in []absOp, snap string) (ops []absOp, recs []int, writes []int, byteCounts []int64) {
+// cut says how the prefix a failed snapshot left behind ends, when the file could be inspected:
+// "torn" (inside a record), "boundary" (whole records only) or "" (unknown: proportional).
+func abstract(in []absOp, snap, cut string) (ops []absOp, recs []int, writes []int, byteCounts []int64, failed []int) {
 	names := map[string]string{snap: "final"}
 	name := func(p string) string {
 		if p == "" {
@@ -861,15 +963,29 @@ func abstract(in []absOp, snap string) (ops []absOp, recs []int, writes []int, b
 	recs = []int{2}
 	writes = make([]int, g+1)
 	byteCounts = make([]int64, g+1)
+	total := make([]int64, g+1) // bytes of the whole snapshot
+	isFailed := make([]bool, g+1)
+	first := make([]bool, g+1)
 	for _, o := range ops {
+		if (o.Op == "write" || o.Op == "writefail") && !first[o.G] {
+			first[o.G] = true
+			total[o.G] = o.Req // the first write call is given the whole snapshot
+		}
 		if o.Op == "write" {
 			writes[o.G]++
 			byteCounts[o.G] += o.Bytes
 		}
+		if o.Op == "writefail" && !isFailed[o.G] {
+			isFailed[o.G] = true
+			failed = append(failed, o.G)
+		}
 	}
 	for x := 1; x <= g; x++ {
+		if !isFailed[x] || total[x] < byteCounts[x] {
+			total[x] = byteCounts[x]
+		}
 		n := 3 - (x+1)%2 // 3, 2, 3, ...
-		if byteCounts[x] == 0 {
+		if total[x] == 0 {
 			n = 0
 		}
 		recs = append(recs, n)
@@ -887,11 +1003,11 @@ func abstract(in []absOp, snap string) (ops []absOp, recs []int, writes []int, b
 		off[x] += o.Bytes
 		seen[x]++
 		units := recs[x] * unitsPer
-		end := int(off[x] * int64(units) / byteCounts[x])
-		if seen[x] == writes[x] {
+		end := int(off[x] * int64(units) / total[x])
+		if seen[x] == writes[x] && !isFailed[x] {
 			end = units
 		} else if end >= units {
-			end = units - 1
+			end = units - 1 // a failed snapshot is a proper prefix
 		}
 		if end < last[x] {
 			end = last[x]
@@ -899,11 +1015,27 @@ func abstract(in []absOp, snap string) (ops []absOp, recs []int, writes []int, b
 		o.N = end - last[x]
 		last[x] = end
 	}
-	return ops, recs, writes[1:], byteCounts[1:]
+	for _, x := range failed {
+		for i := len(ops) - 1; i >= 0; i-- {
+			if o := &ops[i]; o.Op == "write" && o.G == x {
+				units := recs[x] * unitsPer
+				switch {
+				case cut == "torn" && last[x]%unitsPer == 0 && last[x]+2 < units:
+					o.N += 2
+				case cut == "boundary" && last[x]%unitsPer != 0:
+					o.N -= last[x] % unitsPer
+				}
+				break
+			}
+		}
+	}
+	return ops, recs, writes[1:], byteCounts[1:], failed
 }
 
 // shapeErrors: what every snapshot must look like on the wire: written to a file that is not
 // the final one, fsynced after its last write and before it is renamed onto the final name.
+const partialRename = "partial-rename: "
+
 func shapeErrors(ops []absOp) (errs []string) {
 	maxG := 0
 	for _, o := range ops {
@@ -915,13 +1047,19 @@ func shapeErrors(ops []absOp) (errs []string) {
 		}
 	}
 	for g := 1; g <= maxG; g++ {
-		created, lastWrite, renameAt := "", -1, -1
+		created, lastWrite, renameAt, failAt := "", -1, -1, -1
 		var syncs []int
+		var stored int64
 		for i, o := range ops {
 			if o.G != g {
 				continue
 			}
+			if o.Op == "write" {
+				stored += o.Bytes
+			}
 			switch {
+			case o.Op == "writefail" && failAt < 0:
+				failAt = i
 			case o.Op == "create" && created == "":
 				created = o.A
 			case o.Op == "write" && o.A == created && o.Bytes > 0:
@@ -937,6 +1075,14 @@ func shapeErrors(ops []absOp) (errs []string) {
 			continue
 		}
 		if created == "final" {
+			continue
+		}
+		if failAt >= 0 {
+			// the write failed: what the file holds is a prefix and must not get the final name
+			if renameAt > failAt {
+				errs = append(errs, fmt.Sprintf("%ssnapshot %d: its write failed (%s) after %d bytes were stored, and %s is then renamed onto the final name",
+					partialRename, g, ops[failAt].Flags, stored, created))
+			}
 			continue
 		}
 		if renameAt < 0 {
@@ -965,7 +1111,7 @@ func TestRecordOps(t *testing.T) {
 	defer res.Write()
 	base := scratch(t, "rec")
 	var recsOut []recording
-	scns := []string{"one", "empty", "big", "seq"}
+	scns := []string{"one", "empty", "big", "seq", "wfail_tick", "wfail_shut"}
 	if *tier == "thorough" {
 		scns = append(scns, "huge", "seq6")
 	}
@@ -982,6 +1128,9 @@ func TestRecordOps(t *testing.T) {
 				"-o", tr, os.Args[0], "-test.run", "^TestHelperSnapshot$", "-test.count", "1", "-test.timeout", "120s")
 			cmd.Env = append(os.Environ(), "C11_HELPER="+k.name+":"+scn, "C11_DIR="+dir)
 			out, err := cmd.CombinedOutput()
+			if scn == "wfail_tick" && err != nil && strings.Contains(err.Error(), "killed") {
+				err = nil // the scenario ends with SIGKILL
+			}
 			if _, serr := os.Stat(filepath.Join(dir, "child_state.json")); err != nil || serr != nil {
 				r.StraceErr = fmt.Sprintf("%v: %s", err, short(string(out), 1500))
 				recsOut = append(recsOut, r)
@@ -997,7 +1146,17 @@ func TestRecordOps(t *testing.T) {
 			}
 			r.StraceOK = true
 			r.Raw = raw
-			r.Ops, r.Recs, r.Writes, r.ByteCounts = abstract(ops, snap)
+			// the prefix a failed snapshot left under the final name: cut inside a record or not
+			cut := ""
+			if b, err := os.ReadFile(snap); err == nil && strings.HasPrefix(scn, "wfail") {
+				if _, _, berr := bounds(b); berr != nil {
+					cut = "torn"
+				} else {
+					cut = "boundary"
+				}
+			}
+			r.Ops, r.Recs, r.Writes, r.ByteCounts, r.Failed = abstract(ops, snap, cut)
+			r.FaultWanted = strings.HasPrefix(scn, "wfail")
 			r.ShapeErrors = append(r.ShapeErrors, shapeErrors(r.Ops)...)
 			res.Cases++
 			res.Steps += len(r.Ops)
@@ -1008,12 +1167,32 @@ func TestRecordOps(t *testing.T) {
 				}
 			}
 			for _, e := range r.ShapeErrors {
-				res.Add(hx.Mismatch{Case: len(recsOut), What: "shape", Got: k.name + "/" + scn + ": " + e, Replay: hx.J(r.Ops)})
+				class := ""
+				if strings.HasPrefix(e, partialRename) {
+					class, e = "partial-rename", strings.TrimPrefix(e, partialRename)
+				}
+				res.Add(hx.Mismatch{Case: len(recsOut), What: "shape", Class: class, Got: k.name + "/" + scn + ": " + e, Replay: hx.J(r.Ops)})
+			}
+			if r.FaultWanted {
+				res.Count("write_faults_wanted", 1)
+				if len(r.Failed) > 0 {
+					res.Count("write_faults_injected", 1)
+				}
 			}
 			// the completed shutdown snapshot must reproduce the state the child held
 			var child struct {
 				State    map[string]string `json:"state"`
 				Problems []string          `json:"problems"`
+				Passes   float64           `json:"passes"`
+				FailedP  float64           `json:"failed_passes"`
+				InStore  int               `json:"records_in_store"`
+			}
+			wfail := len(r.Failed) > 0
+			what, class := "completed snapshot", ""
+			if wfail {
+				// the last COMPLETED snapshot is the one before the failed one: that is what the
+				// child recorded, and what the next start must load
+				what, class = "failed snapshot write replaces the last completed snapshot", "partial-rename"
 			}
 			want := child.State
 			if b, err := os.ReadFile(filepath.Join(dir, "child_state.json")); err != nil || json.Unmarshal(b, &child) != nil {
@@ -1023,10 +1202,17 @@ func TestRecordOps(t *testing.T) {
 				r.FinalErr = "the store that was snapshotted is inconsistent: " + child.Problems[0]
 			} else if h, err := k.open(snap, nil); err != nil {
 				r.FinalErr = "start-up error on the completed snapshot: " + err.Error()
+				if wfail {
+					r.FinalErr = fmt.Sprintf("the next start refuses the file: %v (a snapshot of %d records had completed; then the write of a snapshot of %d records failed in %v of %v maintenance passes)",
+						err, len(want), child.InStore, child.FailedP, child.Passes)
+				}
 			} else {
 				got, probs := h.proj()
 				if d := sameProj(want, got); d != "" {
 					r.FinalErr = "state loaded from the completed snapshot differs from the state snapshotted: " + d
+					if wfail {
+						r.FinalErr = fmt.Sprintf("the next start loads %d records, neither the %d of the last completed snapshot nor the %d of the store: %s", len(got), len(want), child.InStore, short(d, 300))
+					}
 				} else if len(probs) > 0 {
 					r.FinalErr = probs[0]
 				} else {
@@ -1037,12 +1223,12 @@ func TestRecordOps(t *testing.T) {
 			if fi, err := os.Stat(snap); err != nil {
 				r.FinalOK = false
 				r.FinalErr = "no snapshot file after Maintenance returned: " + err.Error()
-			} else if n := r.ByteCounts[len(r.ByteCounts)-1]; r.FinalOK && fi.Size() != n {
+			} else if n := r.ByteCounts[len(r.ByteCounts)-1]; r.FinalOK && !wfail && fi.Size() != n {
 				r.FinalOK = false
 				r.FinalErr = fmt.Sprintf("snapshot file has %d bytes, the last snapshot wrote %d", fi.Size(), n)
 			}
 			if !r.FinalOK && r.FinalErr != "child wrote no state" {
-				res.Add(hx.Mismatch{Case: len(recsOut), What: "completed snapshot", Got: k.name + "/" + scn + ": " + r.FinalErr, Replay: hx.J(r.Ops)})
+				res.Add(hx.Mismatch{Case: len(recsOut), What: what, Class: class, Got: k.name + "/" + scn + ": " + r.FinalErr, Replay: hx.J(r.Ops)})
 			}
 			es, _ := os.ReadDir(dir)
 			for _, e := range es {
@@ -1050,8 +1236,11 @@ func TestRecordOps(t *testing.T) {
 					r.Leftovers = append(r.Leftovers, e.Name())
 				}
 			}
-			if strings.HasPrefix(scn, "seq") && len(r.Writes) >= 2 {
+			if (strings.HasPrefix(scn, "seq") && len(r.Writes) >= 2) || wfail {
 				res.Nontrivial++
+			}
+			if wfail && r.FinalOK {
+				res.Count("write_fault_keeps_last_completed_snapshot", 1)
 			}
 			recsOut = append(recsOut, r)
 		}
